@@ -29,6 +29,7 @@ INVARIANT IdentifiedClaims
 INVARIANT UniqueClaimWins
 INVARIANT NeverGuess
 INVARIANT NoGuessParse
+INVARIANT FormatsTableFaithful
 INVARIANT WriteThenReadSameFormat
 PROPERTY TableOnlyGrows
 CHECK_DEADLOCK FALSE
@@ -111,6 +112,21 @@ def replay_state(rec, st, idx):
                 rec.violation('C14|registry|register|dup-changed-table', f'refused duplicate registration {key} changed the table or replaced the function', case)
             elif out == 'registered' and after != sorted(before + [list(key)]):
                 rec.violation('C14|registry|register|table', f'registering {key} did not add exactly that entry', case)
+        finally:
+            _uninstall(cmap)
+        return
+    if req['method'] == 'get_formats':
+        cmap, funcs = _install(st['reg'], list(st['order']), classes)
+        try:
+            tbl = RegionsRegistry.get_formats(cmap[req['cls']])
+            cols = ['Parse', 'Serialize', 'Read', 'Write', 'Auto-identify']
+            got = sorted([str(row['Format']), [str(row[c]) == 'Yes' for c in cols]] for row in tbl) if len(tbl) else []
+            want = sorted([r[0], list(r[1])] for r in res[1])
+            rec.case(('get_formats', req['cls'], len(st['reg'])), True)
+            if got != want:
+                rec.violation('C14|registry|get_formats', f'get_formats shows {got}, the table is {want}', case)
+            elif len(tbl) and [str(x) for x in tbl['Format']] != sorted(str(x) for x in tbl['Format']):
+                rec.violation('C14|registry|get_formats|order', 'the formats are not listed in alphabetical order', case)
         finally:
             _uninstall(cmap)
         return
